@@ -1,4 +1,5 @@
 import Proofs.Lemmas.CostSpec
+import Proofs.Props.C01
 import Mathlib.LinearAlgebra.Matrix.Determinant.Basic
 import Mathlib.LinearAlgebra.Matrix.Notation
 /-!
@@ -326,5 +327,62 @@ theorem structure_factor_symmetric {nz : Bool} {s : MA ℝ} (w : PWf p) (hsite :
   have hlo : l < omF.length := by rw [ho2, hl]; exact hl'
   rw [hat l i j hl' hi hj hlo, hat l j i hl' hj hi hlo, hh hF h1 l i j hl' hi hj, hp i j, hs i j,
     ho1 l i j hlo (by rw [ho3, hr]; exact hi) (by rw [ho3, hr]; exact hj)]
+
+/-- **the identity linking S(k) to C(k), on the object itself**: after any successful `cost` evaluation (in particular at a
+root) the unnormalised structure factor that `structure_factor(normalize=False)` returns satisfies `(1 − Ω Ĉ) S = Ω` at every
+wavenumber, i.e. `S = (1 − Ω Ĉ)⁻¹ Ω` -/
+theorem sf_after_cost {inv : ℕ → Array ℝ → Array ℝ} {p q q2 : Prism ℝ} {x : Array ℝ} {s : MA ℝ} (w : PWf p) (hsite : p.siteD.length = 1)
+    (hom : p.omega.space = .fourier) (hc : p.cost inv x = .ok q) (hs : q.structureFactor false = .ok (q2, s))
+    {l : ℕ} (hl : l < p.dom.length)
+    (hinv : InvOn inv p.n fun i j => (if i = j then 1 else 0) - ∑ k ∈ range p.n, p.omega.at l i k * q.directCorr.at l k j)
+    (hρ : ∀ i j, i < p.n → j < p.n → p.pairD.at 0 i j ≠ 0) :
+    (1 - C01.mat p.n p.omega l * C01.mat p.n q.directCorr l) * C01.mat p.n s l = C01.mat p.n p.omega l := by
+  obtain ⟨T⟩ := cost_trace inv p q x hc
+  have hst := C01.cost_static hc
+  have wq : PWf q := by
+    obtain ⟨a1, a2, a3, a4, _⟩ := hst
+    exact ⟨by rw [a4, a2]; exact w.om_len, by rw [a4, a1]; exact w.om_rank, by rw [a3]; exact w.pair_len, by rw [a3, a1]; exact w.pair_rank⟩
+  have hsq : q.siteD.length = 1 := by rw [hst.2.2.2.2.2.2.2.2.1]; exact hsite
+  obtain ⟨hF, omF, h1, h2, _, b1, b2, _, b4⟩ := structure_factor_def wq hsq hs
+  -- both stored arrays are already in Fourier space: nothing is moved
+  have hhF : hF = q.totalCorr := by
+    rcases ensureFourier_cases h1 with ⟨hsR, _⟩ | ⟨_, e⟩
+    · exfalso
+      have : q.totalCorr.space = .fourier := by
+        rw [T.hq_h, binop_eq T.hh, build_space, dot_eq T.ht2, build_space, dot_eq T.ht1, build_space]
+        show T.ioc.space = .fourier
+        rw [binop_eq T.hioc]; rfl
+      rw [this] at hsR; cases hsR
+    · exact e
+  have homF : omF = p.omega := by
+    rcases ensureFourier_cases h2 with ⟨hsR, _⟩ | ⟨_, e⟩
+    · exfalso; rw [T.hq_om, hom] at hsR; cases hsR
+    · rw [e, T.hq_om]
+  have hS : C01.mat p.n s l = C01.mat p.n p.omega l + C01.matH p.n p.pairD q.totalCorr l := by
+    ext i j
+    simp only [C01.mat, C01.matH, Matrix.of_apply, Matrix.add_apply]
+    have hl1 : l < hF.length := by rw [hhF, T.hq_h, T.h_meta.1]; exact hl
+    have hi1 : i.1 < hF.rank := by rw [hhF, T.hq_h, T.h_meta.2]; exact i.2
+    have hj1 : j.1 < hF.rank := by rw [hhF, T.hq_h, T.h_meta.2]; exact j.2
+    have hlo : l < omF.length := by rw [homF, w.om_len]; exact hl
+    have := b4 l i.1 j.1 hl1 hi1 hj1 hlo
+    simp only [Bool.false_eq_true, if_false] at this
+    rw [this, hhF, homF, hst.2.2.1]; ring
+  have hP := C01.prism_equation_of_cost w hc hl hinv hρ
+  rw [hS]
+  set Ω := C01.mat p.n p.omega l
+  set C := C01.mat p.n q.directCorr l
+  set H := C01.matH p.n p.pairD q.totalCorr l
+  calc (1 - Ω * C) * (Ω + H) = Ω + H - Ω * C * (Ω + H) := by noncomm_ring
+    _ = Ω + H - H := by rw [← hP]
+    _ = Ω := by abel
+
+/-- symmetric stored arrays give a symmetric `g(r)` (and hence pmf): both orders of the type labels agree -/
+theorem pair_correlation_symmetric {g : MA ℝ} (h : p.pairCorrelation = .ok (q, g))
+    (hsym : ∀ B, ensureReal p.dom p.totalCorr = .ok B → C07.MA.Symm B) : C07.MA.Symm g := by
+  obtain ⟨hR, h1, _, a1, a2, _, a4⟩ := pair_correlation_def h
+  intro l i j hl hi hj
+  rw [a1] at hl; rw [a2] at hi hj
+  rw [a4 l i j hl hi hj, a4 l j i hl hj hi, hsym hR h1 l i j hl hi hj]
 
 end C05
